@@ -137,6 +137,11 @@ func check(c Case, o *stats.Obs) error {
 			o.Key = "rawdata-modified"
 			return fmt.Errorf("raw bytes of the message delivered at history position %d changed after later decoding/display: %x -> %x", pos, k.raw, k.m.RawData)
 		}
+		// the decoded fields and text of an earlier message must not have been changed by later decodes
+		if d := sameView(viewOf(k.m), base[k.idx]); d != "" {
+			o.Key = "result-changed-by-later-decode"
+			return fmt.Errorf("the message decoded at history position %d (%x) reads differently after the rest of the history was decoded: %s", pos, k.raw, d)
+		}
 	}
 	// (2) the same history as one stream through HandleMessages: raw bytes stable after the run, display equal to baseline
 	var input []byte
@@ -198,6 +203,35 @@ func check(c Case, o *stats.Obs) error {
 		for _, e := range errs {
 			if e != "" {
 				o.Key = "concurrency-dependence"
+				return fmt.Errorf("%s", e)
+			}
+		}
+	}
+	// (3b) several handlers framing the same stream at the same time (HandleMessages in parallel goroutines)
+	if c.Handlers > 1 && len(streamIdx) > 0 {
+		var wg sync.WaitGroup
+		errs := make([]string, c.Handlers)
+		for g := 0; g < c.Handlers; g++ {
+			wg.Add(1)
+			go func(g int) {
+				defer wg.Done()
+				res := drive.Run(handler.New(drive.StartTime, lv), input, drive.Options{InCap: g % 3, OutCap: 1})
+				if res.Panic != "" || !res.Closed || len(res.Msgs) != len(streamIdx) {
+					errs[g] = fmt.Sprintf("handler %d of %d framing the stream in parallel: panic=%q closed=%v messages=%d, want %d", g, c.Handlers, res.Panic, res.Closed, len(res.Msgs), len(streamIdx))
+					return
+				}
+				for k := range res.Msgs {
+					if d := sameView(viewOf(&res.Msgs[k]), base[streamIdx[k]]); d != "" {
+						errs[g] = fmt.Sprintf("handler %d of %d framing the stream in parallel: message %d (%x) differs from the frame decoded alone: %s", g, c.Handlers, k, res.Msgs[k].RawData, d)
+						return
+					}
+				}
+			}(g)
+		}
+		wg.Wait()
+		for _, e := range errs {
+			if e != "" {
+				o.Key = "concurrency-dependence-stream"
 				return fmt.Errorf("%s", e)
 			}
 		}
